@@ -152,6 +152,7 @@ func Run(cfg hx.Config) error {
 	h.rpmHdrStream()
 	h.bdbStream()
 	h.bdbFanStream()
+	h.dlexStream()
 	h.ndbStream()
 	return nil
 }
@@ -191,6 +192,10 @@ func (h *harness) corpus() {
 
 func (h *harness) replayLine(line string) {
 	f := strings.Fields(line)
+	if len(f) == 3 {
+		h.replayLine3(f)
+		return
+	}
 	if len(f) != 2 {
 		return
 	}
@@ -210,6 +215,20 @@ func (h *harness) replayLine(line string) {
 		h.opBdb(b, "corpus")
 	case "ndb":
 		h.opNdb(b, "corpus")
+	}
+}
+
+// replayLine3 replays the corpus lines with two arguments.
+func (h *harness) replayLine3(f []string) {
+	b, err := hx.Unhex(f[2])
+	if err != nil {
+		return
+	}
+	if f[0] == "dlex" {
+		var esc int
+		if _, err := fmt.Sscanf(f[1], "%d", &esc); err == nil {
+			h.opDlex(b, rune(esc), "corpus")
+		}
 	}
 }
 
